@@ -144,9 +144,20 @@ def run_case(case, ctx):
             err = float(np.abs(oracles.marginal(counts, attrs, list(cl)) / n - p).sum())
             rad = oracles.weissman_radius(max(k, 2), n)
             worst = max(worst, err / rad)
+        # "the records follow the model's distribution" is a statement about the joint, not only about the
+        # model's own cliques: the full table and every pair of attributes (sharing a clique or not)
+        import itertools
+        others = [list(attrs)] + [list(pr) for pr in itertools.combinations(attrs, 2)]
+        for sub in others:
+            p = oracles.marginal(P, attrs, sub)
+            k = int(np.count_nonzero(p))
+            err = float(np.abs(oracles.marginal(counts, attrs, sub) / n - p).sum())
+            rad = oracles.weissman_radius(max(k, 2), n)
+            worst = max(worst, err / rad)
+            ctx.mon('joint_and_pair_marginals_compared')
         ctx.stat('sampling_error_over_weissman_radius', worst)
         ctx.check(worst <= 1.0, 'sampling_concentration', 'not_the_model_distribution',
-                  'empirical clique distribution is %.2f Weissman radii (failure probability 1e-12) from the model (rows %d)' % (worst, n))
+                  'empirical distribution (cliques, pairs of attributes, full table) is %.2f Weissman radii (failure probability 1e-12) from the model (rows %d)' % (worst, n))
 
 
 TECHNIQUE = 'runtime monitoring: synthetic_data outputs judged against the brute-force joint: exact row/range/zero-cell checks, an N-independent rounding bound per clique, and a 1e-12 concentration bound in sampling mode'
